@@ -365,6 +365,14 @@
 //!          `Number::try_fast_path` (number.rs; with the whitelisted import of `set_precision` and
 //!          fpu.rs still being `#![cfg(feature = "nightly")]`); a new or changed nightly-gated
 //!          statement is exit 2 in number.rs / the declaration files, OMITTED elsewhere.
+//! C-PIN32  rule 14 resolves `LIMB_BITS == 32` statically, so the 32-bit-limb code is dropped or
+//!          never read, and that configuration cannot be built here: its text is pinned (table
+//!          DROPPED32 of src/pins.rs): every `if LIMB_BITS == 32` branch and every match arm guarded
+//!          by it (bigint.rs `from_u64`, `hi64`, `pow`; slow.rs `parse_mantissa`), the functions
+//!          `u32_to_hi64_1/2/3`, the items under the not-64-bit `cfg` (`Limb`, `Wide`, `LIMB_BITS`,
+//!          the 32-bit `LARGE_POW5`), the arms `@3` / `@nonzero3` of `hi!`.  Changed, missing or
+//!          extra (a new `LIMB_BITS == 32` branch anywhere): bigint.rs / table_small.rs - everything
+//!          built on the limb types is OMITTED; slow.rs - its functions are OMITTED.
 //! C-PRIM   ("pinned primitives") the functions that the translation calls BY NAME with the meaning
 //!          of a hand model (rule 10) are not translated, so their text - attributes (doc comments
 //!          excepted), visibility, signature and body, as `quote!` prints them - must be, token for
@@ -1260,9 +1268,18 @@ fn main() {
     if args[1] == "--dump-pins" && args.len() == 3 {
         // maintenance: print the pinnable texts of num.rs (to regenerate src/pins.rs)
         let f = parse_file(&args[2], "num.rs");
+        println!("pub const PRIMITIVES: &[(&str, &str, &str, &str)] = &[");
         for (o, n, t) in check::pinnable(&f) {
             println!("    (\"num.rs\", {:?}, {:?}, {:?}),", o, n, t);
         }
+        println!("];\n\npub const DROPPED32: &[(&str, &str, &str)] = &[");
+        for name in ["bigint.rs", "slow.rs", "table_small.rs"] {
+            let f = parse_file(&args[2], name);
+            for (k, t) in check::dropped32(&f) {
+                println!("    ({:?}, {:?}, {:?}),", name, k, t);
+            }
+        }
+        println!("];");
         return;
     }
     let dir = &args[1];
@@ -1329,6 +1346,7 @@ fn main() {
         for name in names {
             let mut p = check::check_file(name, &files[name], &known);
             p.extend(check::check_pinned_primitives(name, &files[name]));
+            p.extend(check::check_dropped32(name, &files[name]));
             if let Some(e) = p.first() {
                 if matches!(name.as_str(), "num.rs" | "extended_float.rs" | "number.rs" | "bellerophon.rs" | "table_lemire.rs") {
                     fail(format!("{}: {}", name, e));
